@@ -25,6 +25,8 @@ func init() {
 			"NOT decided: byte-for-byte equality of consumed and produced streams as a run-time value statement (it follows from fifo-shape + locked for the single-producer/single-consumer roles, which is the argument, not a measurement).",
 		Assumptions: []string{"sync.RWMutex and channel semantics of the Go memory model", "the queue is used only through its methods (fields are unexported)"},
 		Mutants: []Mutant{
+			{ID: "C20-publish-after-unlock", Desc: "Dequeue publishes the new depth after releasing the lock", Rule: "C20/token",
+				Edits: []Edit{{File: "util/queue.go", Old: "\tq.lock.Lock()\n\tdefer q.lock.Unlock()\n\n\tb := q.queue[0]\n\n\tq.queue = q.queue[1:]\n\tq.depth--\n\n\t<-q.depthChan\n\tq.depthChan <- q.depth\n", New: "\tq.lock.Lock()\n\n\tb := q.queue[0]\n\n\tq.queue = q.queue[1:]\n\tq.depth--\n\tdepth := q.depth\n\n\tq.lock.Unlock()\n\n\t<-q.depthChan\n\tq.depthChan <- depth\n"}}},
 			{ID: "C20-requeue-nolock", Desc: "Requeue without the lock", Rule: "C20/locked",
 				Edits: []Edit{{File: "util/queue.go", Old: "func (q *Queue) Requeue(b []byte) {\n\tq.lock.Lock()\n\tdefer q.lock.Unlock()\n", New: "func (q *Queue) Requeue(b []byte) {\n"}}},
 			{ID: "C20-dequeue-rlock", Desc: "Dequeue mutates under the read lock", Rule: "C20/locked",
@@ -133,6 +135,7 @@ func runC20(c *Ctx, r *Report) {
 	for _, fn := range c.LibFns {
 		ops := chanOpsOf(fn)
 		nrecv := 0
+		nsend := 0
 		for _, op := range ops {
 			if !isChanField(op) {
 				continue
@@ -160,6 +163,27 @@ func runC20(c *Ctx, r *Report) {
 				}
 				if !dominated {
 					r.Bad("C20/token", shortFn(fn)+" send without token", c.Pos(op.Instr.Pos()), "a send to the depth mailbox that is not preceded by a receive: with the slot full this blocks forever while holding the lock")
+				}
+				// publishing a NEW depth (anything but putting back the value just taken) is part of the list update:
+				// it must happen under the same write lock, else a concurrent Enqueue's publication can be overwritten
+				// by this stale one (a chunk is stranded: consumers see depth 0 while the list holds it)
+				if snd, ok := op.Instr.(*ssa.Send); ok {
+					putBack := false
+					if u, ok := snd.X.(*ssa.UnOp); ok && u.Op == token.ARROW {
+						if f, _, _ := chanOrigin(u.X); f == fChan {
+							putBack = true
+						}
+					}
+					if !putBack {
+						nsend++
+						construct := fmt.Sprintf("%s publishes depth#%d under the write lock", shortFn(fn), nsend)
+						held := ml.HeldAt(op.Instr)
+						if held != nil && held[lockKey+"/W"] {
+							r.OK("C20/token", construct, c.Pos(op.Instr.Pos()), "held: "+strings.Join(held.names(), ","))
+						} else {
+							r.Bad("C20/token", construct, c.Pos(op.Instr.Pos()), fmt.Sprintf("a new depth is sent to the mailbox without holding the queue's write lock (held: %v): between the list update and this publication another Enqueue/Dequeue can publish, and this stale value then overwrites theirs -- a queued chunk becomes invisible until the next Enqueue (the operation waiting for it times out, the bytes surface in the next exchange)", held.names()))
+						}
+					}
 				}
 			default:
 				r.Bad("C20/token", shortFn(fn)+" "+op.Kind, c.Pos(op.Instr.Pos()), "unexpected operation on the depth mailbox: "+op.Kind)
